@@ -40,8 +40,17 @@ def defaults():
         DEFAULTS = dict(mcs=S.max_cholesky_size.value(), fast=S.fast_computations.solves.on(), cgtol=S.cg_tolerance.value(),
                         maxit=S.max_cg_iterations.value(), mps=S.max_preconditioner_size.value(),
                         minps=S.min_preconditioning_size.value(), memeff=S.memory_efficient.on(),
-                        lanczos=S.max_lanczos_quadrature_iterations.value())
+                        lanczos=S.max_lanczos_quadrature_iterations.value(),
+                        jit_exp=jitter_exp(S.cholesky_jitter.value(F64)), tries=S.cholesky_max_tries.value())
     return DEFAULTS
+
+
+def jitter_exp(v):
+    """cholesky_jitter as the k with value == 10^-k (the model's settings record carries k)"""
+    k = int(round(-math.log10(v)))
+    if float("1e-%d" % k) != v:
+        raise ValueError("cholesky_jitter %r is not a power of ten" % v)
+    return k
 
 
 def factor_levels():
@@ -84,6 +93,10 @@ def settings_ctx(st):
         es.enter_context(S.max_preconditioner_size(st["mps"]))
         es.enter_context(S.min_preconditioning_size(st["minps"]))
         es.enter_context(S.memory_efficient(st["memeff"]))
+        if "jit_exp" in st:
+            es.enter_context(S.cholesky_jitter(double_value=float("1e-%d" % st["jit_exp"])))
+        if "tries" in st:
+            es.enter_context(S.cholesky_max_tries(st["tries"]))
         es.enter_context(S.verbose_linalg(True))
         yield
 
@@ -134,8 +147,25 @@ def parse_events(msgs, cgcalls):
     return ev
 
 
-def observe(spec, rhs, left, st):
-    """run the real solve; returns dict(out | exc, events, warn)"""
+def call_solve(op, rhs, left, via):
+    """the public entry points that end in LinearOperator.solve"""
+    r = rhs.clone()
+    l = None if left is None else left.clone()
+    if via == "solve":
+        return op.solve(r) if l is None else op.solve(r, l)
+    if via == "linalg":
+        return torch.linalg.solve(op, r)
+    if via == "func":
+        import linear_operator
+        return linear_operator.solve(op, r) if l is None else linear_operator.solve(op, r, l)
+    raise ValueError(via)
+
+
+def observe(spec, rhs, left, st, via="solve", fwd_rhs=None):
+    """run the real solve; returns dict(out | exc, events, warn).
+    via = "backward": `fwd_rhs` is the right-hand side of the forward solve and `rhs` the upstream gradient; the
+    observed result is the gradient with respect to the right-hand side (= A^-1 rhs for symmetric A) and the
+    "second solve" is the one the backward pass runs."""
     import linear_operator.settings as S
     import linear_operator.utils as U
     lg = S.verbose_linalg.logger
@@ -150,30 +180,44 @@ def observe(spec, rhs, left, st):
         return orig_cg(*a, **k)
     U.linear_cg = cg
     res = {}
+    n0 = c0 = 0
     try:
         with settings_ctx(st), warnings.catch_warnings(record=True) as w:
             warnings.simplefilter("always")
             try:
                 op = ops.build(spec)
-                out = op.solve(rhs.clone()) if left is None else op.solve(rhs.clone(), left.clone())
-                res["out"] = out.detach() if torch.is_tensor(out) else out
-                # a second solve on the SAME object (cached factors must not change the answer)
-                n1, c1 = len(cap.msgs), len(cgcalls)
-                try:
-                    out2 = op.solve(rhs.clone()) if left is None else op.solve(rhs.clone(), left.clone())
-                    res["out2"] = out2.detach() if torch.is_tensor(out2) else out2
-                except Exception as ex:  # noqa
-                    res["exc2"] = "%s: %s" % (type(ex).__name__, str(ex)[:160])
-                res["split"] = (n1, c1)
+                # (building a factor operator runs cholesky(): those events are not part of the solve)
+                n0, c0 = len(cap.msgs), len(cgcalls)
+                if via == "backward":
+                    r = fwd_rhs.clone().requires_grad_(True)
+                    fwd = op.solve(r)
+                    res["fwd"] = fwd.detach()
+                    n1, c1 = len(cap.msgs), len(cgcalls)
+                    res["split"] = (n1, c1)
+                    fwd.backward(rhs.clone())
+                    res["out"] = r.grad.detach() if r.grad is not None else None
+                    res["out2"] = res["out"]
+                else:
+                    out = call_solve(op, rhs, left, via)
+                    res["out"] = out.detach() if torch.is_tensor(out) else out
+                    # a second solve on the SAME object (cached factors must not change the answer)
+                    n1, c1 = len(cap.msgs), len(cgcalls)
+                    try:
+                        out2 = call_solve(op, rhs, left, via)
+                        res["out2"] = out2.detach() if torch.is_tensor(out2) else out2
+                    except Exception as ex:  # noqa
+                        res["exc2"] = "%s: %s" % (type(ex).__name__, str(ex)[:160])
+                    res["split"] = (n1, c1)
             except Exception as ex:  # noqa
                 res["exc"] = "%s: %s" % (type(ex).__name__, str(ex)[:160])
             res["warn"] = any("CG terminated" in str(x.message) for x in w)
+            res["jitter_warn"] = sorted({str(x.message)[:60] for x in w if "added jitter" in str(x.message)})
             res["otherwarn"] = sorted({type(x.message).__name__ for x in w if "CG terminated" not in str(x.message)})
     finally:
         U.linear_cg = orig_cg
         lg.handlers, lg.propagate = old_handlers, old_prop
     n1, c1 = res.get("split", (len(cap.msgs), len(cgcalls)))
-    res["events"] = parse_events(cap.msgs[:n1], cgcalls[:c1])
+    res["events"] = parse_events(cap.msgs[n0:n1], cgcalls[c0:c1])
     res["events2"] = parse_events(cap.msgs[n1:], cgcalls[c1:])
     return res
 
@@ -234,7 +278,9 @@ def class_configs(quick):
     return C
 
 
-OWN_SOLVE = {"Diag", "ConstantDiag", "Identity", "Chol", "CholInverse", "CholDiag", "Tri", "TriPlusDiag", "TriRepeat", "LowRankRootAddedDiag"}
+OWN_SOLVE = {"Diag", "ConstantDiag", "Identity", "Chol", "CholInverse", "CholDiag", "Tri", "TriPlusDiag", "TriRepeat", "LowRankRootAddedDiag",
+             "CholOf", "FactorTri"}
+NOT_SYMMETRIC = {"Tri", "TriPlusDiag", "TriRepeat", "FactorTri", "Permutation", "CholInverse"}
 NOT_PD_NEEDS_BRANCH3 = {"Permutation"}
 RHS_KINDS = ["vec", "mat", "bat", "bcast", "left", "leftvec", "leftbat"]
 KAPPAS = [1e0, 1e2, 1e4, 1e6]
@@ -243,13 +289,21 @@ KAPPAS = [1e0, 1e2, 1e4, 1e6]
 def total_size(cls, kw, n):
     if cls in ("BlockDiag", "BlockInterleaved"):
         return n * kw["blocks"]
+    if cls in ("CholOf", "FactorTri"):
+        return total_size(kw["base"], kw.get("base_kw", {}), n)
     return n
 
 
-def make_rhs(rng, kind, N, obatch):
-    """rhs, left, for operator matrix size N and operator batch obatch"""
+RHS_MODS = ["zerocol", "zeromember", "allzero", "scales"]
+
+
+def make_rhs(rng, kind, N, obatch, rhsmod=None):
+    """rhs, left, for operator matrix size N and operator batch obatch.
+    rhsmod: structure of the right-hand side - "zerocol" (one identically-zero column next to ordinary ones),
+    "zeromember" (one all-zero batch member), "allzero" (= A times the solver's initial guess 0), "scales" (columns
+    whose norms differ by 1e8)"""
     ob = list(obatch)
-    c = rng.choice([1, 2, 3])
+    c = rng.choice([1, 2, 3]) if rhsmod not in ("zerocol", "scales") else rng.choice([2, 3])
     o = rng.choice([1, 2, 4])
     left = None
     if kind == "vec":
@@ -273,7 +327,15 @@ def make_rhs(rng, kind, N, obatch):
         raise ValueError(kind)
     # scale columns differently (a missed per-column normalisation shows up)
     if rhs.dim() >= 2:
-        rhs = rhs * torch.tensor([10.0 ** (j - 1) for j in range(rhs.shape[-1])], dtype=F64)
+        span = 4 if rhsmod == "scales" else 1
+        rhs = rhs * torch.tensor([10.0 ** (span * (j - 1)) for j in range(rhs.shape[-1])], dtype=F64)
+    if rhsmod == "zerocol":
+        rhs[..., rng.randrange(rhs.shape[-1])] = 0.0
+    elif rhsmod == "zeromember":
+        assert rhs.dim() >= 3
+        rhs[rng.randrange(rhs.shape[0])] = 0.0
+    elif rhsmod == "allzero":
+        rhs = torch.zeros_like(rhs)
     return rhs, left
 
 
@@ -341,6 +403,147 @@ def cells(ctx):
                 st["mcs"] = 0 if (cls == "KronAddedDiag" and j % 2 == 0) else d["mcs"]
                 for kp in ([KAPPAS[rng.randrange(2)]] if ctx.quick else KAPPAS[:2]):
                     out.append(dict(cls=cls, kw=kw, n=n, N=N, ob=(), kind=kind, st=st, kappa=kp, dtype="f32"))
+    out += family_cells(ctx, rng, configs)
+    return out
+
+
+# ---- input families beyond (class x settings x rhs kind): every one is enumerated deterministically --------------
+# (a) solves routed through FACTOR operators: op.cholesky(upper=u) of every PD constructor, wrapped the way the library
+#     wraps it (CholLinearOperator(F, upper=u): .solve -> F._cholesky_solve(rhs, upper=u)) and solved as the triangular
+#     system it is (F.solve)
+# (b) batches whose members differ in conditioning (one numerically singular member makes psd_safe_cholesky's jitter loop
+#     run for the batch; the others must be solved as if they were alone)
+# (c) right-hand sides with structure (zero column, zero batch member, all zero = A x initial guess, columns of very
+#     different norm) on every path, through every public entry point, and through the backward pass
+
+FACTOR_BASES = [
+    ("Dense", {}, 5), ("Dense", {}, 1), ("Dense", {}, 12), ("Sum", {}, 4), ("SumKron", {"sizes": (2, 3)}, 6), ("ConstantMul", {}, 3),
+    ("Toeplitz", {}, 4), ("Root", {}, 3), ("AddedDiag", {}, 6), ("Diag", {}, 4), ("ConstantDiag", {}, 3), ("Identity", {}, 4),
+    ("Chol", {"upper": False}, 3), ("Chol", {"upper": True}, 3), ("CholDiag", {"upper": True}, 4),
+    ("Kron", {"sizes": (2, 3)}, 6), ("Kron", {"sizes": (2, 2, 2)}, 8), ("Kron", {"sizes": (2, 3), "fcls": ["Dense", "Diag"]}, 6),
+    ("Kron", {"sizes": (3, 2), "fcls": ["Diag", "Toeplitz"]}, 6), ("Kron", {"sizes": (2, 2), "fcls": ["Chol", "Dense"], "fkw": {"upper": False}}, 4),
+    ("KronAddedDiag", {"sizes": (2, 3), "dk": "const"}, 6), ("KronAddedDiag", {"sizes": (2, 3), "dk": "general"}, 6),
+    ("LowRankRootAddedDiag", {"rank": 2}, 5),
+    ("BlockDiag", {"blocks": 2}, 3), ("BlockDiag", {"blocks": 3}, 2), ("BlockDiag", {"blocks": 1}, 4), ("BlockDiag", {"blocks": 4}, 1),
+    ("BlockInterleaved", {"blocks": 2}, 3), ("BlockInterleaved", {"blocks": 3}, 2), ("BlockInterleaved", {"blocks": 1}, 4),
+    ("BlockInterleaved", {"blocks": 4}, 1),
+    ("BlockDiag", {"blocks": 2, "base": "Chol", "base_kw": {"upper": True}}, 3),
+    ("BlockInterleaved", {"blocks": 2, "base": "Chol", "base_kw": {"upper": False}}, 2),
+    ("BatchRepeat", {"rep": (2,)}, 3),
+]
+NOT_A_FACTOR_BASE = {"Tri", "TriPlusDiag", "TriRepeat", "Permutation", "CholInverse"}       # not PD / listed defect
+
+JITTER_CLASSES = [
+    ("Dense", {}, 5), ("Dense", {}, 12), ("Sum", {}, 4), ("ConstantMul", {}, 3), ("Kron", {"sizes": (3, 2)}, 6),
+    ("BlockDiag", {"blocks": 2}, 3), ("BlockInterleaved", {"blocks": 3}, 2),
+    ("CholOf", {"base": "Dense", "upper": False}, 5), ("CholOf", {"base": "Dense", "upper": True}, 5),
+    ("CholOf", {"base": "BlockDiag", "base_kw": {"blocks": 2}, "upper": True}, 3),
+]
+PROFILES = [["sing1", "small"], ["small7", "sing1"], ["sing2", "ok", "small"], ["ok", "small"]]
+
+RHS_CONFIGS = [
+    ("Dense", {}, 12), ("Dense", {}, 5), ("Sum", {}, 4), ("ConstantMul", {}, 7), ("Toeplitz", {}, 8), ("Root", {}, 6),
+    ("AddedDiag", {}, 20), ("AddedDiag", {}, 6), ("Diag", {}, 4), ("ConstantDiag", {}, 3), ("Identity", {}, 4),
+    ("Chol", {"upper": False}, 3), ("Chol", {"upper": True}, 3), ("Tri", {"upper": False}, 3), ("Tri", {"upper": True}, 3),
+    ("CholDiag", {"upper": False}, 4), ("Kron", {"sizes": (2, 3)}, 6), ("Kron", {"sizes": (2, 2, 2)}, 8),
+    ("Kron", {"sizes": (2, 3), "fcls": ["Dense", "Diag"]}, 6), ("KronAddedDiag", {"sizes": (2, 3), "dk": "const"}, 6),
+    ("KronAddedDiag", {"sizes": (2, 3), "dk": "general"}, 6), ("LowRankRootAddedDiag", {"rank": 2}, 5),
+    ("BlockDiag", {"blocks": 2}, 3), ("BlockInterleaved", {"blocks": 3}, 2), ("BatchRepeat", {"rep": (2,)}, 3), ("Permutation", {}, 4),
+    ("CholOf", {"base": "Dense", "upper": True}, 5), ("CholOf", {"base": "BlockDiag", "base_kw": {"blocks": 2}, "upper": True}, 3),
+]
+
+
+def family_cells(ctx, rng, configs):
+    d = defaults()
+    base = dict(mcs=d["mcs"], fast=True, cgtol=d["cgtol"], maxit=d["maxit"], mps=d["mps"], minps=d["minps"], memeff=False)
+    CHOL = dict(base)
+    CHOL_OFF = dict(base, mcs=0, fast=False)
+
+    def CG(tol, mps=0, memeff=False):
+        return dict(base, mcs=0, cgtol=tol, mps=mps, minps=0, memeff=memeff)
+    out = []
+
+    def add(fam, cls, kw, n, ob, kind, st, kappa, **extra):
+        N = total_size(cls, kw, n)
+        if N == 1:
+            kappa = 1e0
+        out.append(dict(cls=cls, kw=kw, n=n, N=N, ob=tuple(ob), kind=kind, st=dict(st), kappa=kappa, dtype="f64", fam=fam, **extra))
+
+    # ---------------- (a) factor operators
+    bases = list(FACTOR_BASES)
+    if not ctx.quick:
+        seen = {(c, json.dumps(k, sort_keys=True, default=str), n) for c, k, n in bases}
+        for c, k, n in configs:
+            if c not in NOT_A_FACTOR_BASE and (c, json.dumps(k, sort_keys=True, default=str), n) not in seen:
+                bases.append((c, k, n))
+    for bi, (bcls, bkw, n) in enumerate(bases):
+        for up in (False, True):
+            kw = {"base": bcls, "base_kw": bkw, "upper": up}
+            for ob in ((), (2,)):
+                if bcls == "BatchRepeat" and ob:
+                    continue
+                kinds = ["mat", "left", "vec", "bcast", "leftvec"] if not ob else ["mat", "bat", "leftbat", "left", "bcast"]
+                if bcls == "BatchRepeat":
+                    kinds = ["mat", "left", "vec", "bat", "leftvec"]
+                if not ctx.quick:
+                    kinds = [k for k in RHS_KINDS if not (bcls == "BatchRepeat" and k == "bcast")]
+                for ki, kind in enumerate(kinds):
+                    st = [CHOL, CHOL_OFF, CG(1e-2)][(bi + ki + int(up)) % 3]      # (a Chol operator ignores all of them)
+                    via = "solve"
+                    if kind == "mat" and ob:
+                        via = "linalg"
+                    if kind == "left" and ob:
+                        via = "func"
+                    add("factor", "CholOf", kw, n, ob, kind, st, KAPPAS[(bi + ki) % len(KAPPAS)], via=via)
+                # the factor as the triangular system it is: F.solve(B[, L])
+                if bcls != "BatchRepeat":      # (Triangular over BatchRepeat: covered by TriRepeat and its listed defects)
+                    for kind in (["mat", "left"] if ctx.quick else ["vec", "mat", "bat", "left"]):
+                        add("factor", "FactorTri", kw, n, ob, kind, CHOL, KAPPAS[(bi + int(up)) % len(KAPPAS)], via="solve")
+
+    # ---------------- (b) batches whose members differ in conditioning (Cholesky path)
+    # (the ladder jitter * 10^i, i < max_tries: every profile member is decided robustly on it - see c04_ops.PROFILE_SING)
+    jit_rows = [dict(CHOL), dict(CHOL_OFF), dict(CHOL, jit_exp=7), dict(CHOL, tries=2), dict(CHOL_OFF, tries=5), dict(CHOL, jit_exp=7, tries=1)]
+    j = 0
+    for ci, (cls, kw, n) in enumerate(JITTER_CLASSES):
+        for pi, prof in enumerate(PROFILES):
+            for ki, kind in enumerate(["mat", "bat", "left", "leftbat", "vec"]):
+                st = dict(jit_rows[j % len(jit_rows)])
+                j += 1
+                st.setdefault("jit_exp", d["jit_exp"])
+                st.setdefault("tries", d["tries"])
+                add("jitter", cls, dict(kw, profile=prof), n, (len(prof),), kind, st, 1e0, via="solve", profile=prof)
+
+    # ---------------- (c) right-hand sides with structure
+    for ci, (cls, kw, n) in enumerate(RHS_CONFIGS):
+        own = cls in OWN_SOLVE
+        for mi, mod in enumerate(RHS_MODS):
+            if mod == "zerocol":
+                variants = [((), "mat"), ((2,), "bat"), ((), "left")]
+            elif mod == "zeromember":
+                variants = [((), "bat"), ((2,), "bat")]
+            elif mod == "allzero":
+                variants = [((), "mat"), ((), "vec")]
+            else:
+                variants = [((), "mat"), ((2,), "leftbat")]
+            for vi, (ob, kind) in enumerate(variants):
+                if cls == "BatchRepeat" and ob:
+                    continue
+                tol = [1e-2, 1e-4][(ci + mi + vi) % 2]
+                paths = [CHOL] if own else [CHOL if (ci + vi) % 2 else CHOL_OFF, CG(tol, memeff=bool((ci + mi) % 2))]
+                if cls == "AddedDiag":
+                    paths.append(CG(tol, mps=5))
+                if cls == "Permutation":
+                    paths = [CG(tol)]
+                for st in paths:
+                    add("rhs", cls, kw, n, ob, kind, st, KAPPAS[(ci + mi) % 3], via="solve", rhsmod=mod)
+                    iscg = st["mcs"] == 0 and st["fast"]
+                    if mod in ("zerocol", "zeromember") and vi == 0 and (iscg or own):
+                        # the other public entry points, and the backward pass (gradient with respect to the right-hand side
+                        # when the upstream gradient has this structure)
+                        add("rhs", cls, kw, n, ob, kind, st, KAPPAS[(ci + mi) % 3], via="linalg", rhsmod=mod)
+                        add("rhs", cls, kw, n, ob, kind, st, KAPPAS[(ci + mi) % 3], via="func", rhsmod=mod)
+                        if cls not in NOT_SYMMETRIC and not (cls == "BatchRepeat" and kind == "mat"):
+                            add("rhs", cls, kw, n, ob, kind, st, KAPPAS[(ci + mi) % 3], via="backward", rhsmod=mod)
     return out
 
 
@@ -378,7 +581,21 @@ def reference(spec, rhs, left):
 def value_tol(kappa, dtype="f64"):
     if dtype == "f32":
         return 2e-3
+    if kappa > 1e6:
+        return 1e-6          # (two backward-stable algorithms differ by O(kappa * eps))
     return 1e-9 if kappa <= 1e4 else 1e-7
+
+
+SING_TOL = 1e-3      # model-vs-implementation tolerance for a numerically singular member (cond(A + jitter I) ~ 1e8); the
+#                      property itself says nothing about such a member
+
+
+def member_kappas(cell):
+    """cells of family (b): per batch member the condition number, None for a numerically singular member"""
+    extra = 1.0
+    if cell["cls"] == "Kron":
+        extra = 10.0 ** (len(cell["kw"]["sizes"]) - 1)
+    return [ops.PROFILE_KAPPA[t] * extra if t in ops.PROFILE_KAPPA else None for t in cell["profile"]]
 
 
 def coarse_method(events):
@@ -413,6 +630,34 @@ def predicate(cell, spec, rhs, left, obs):
     if not torch.is_tensor(out2) or out2.shape != out.shape or \
             (out2 - out).abs().max().item() > value_tol(cell["kappa"], cell.get("dtype", "f64")) * max(1.0, out.abs().max().item()):
         return ("repeat", "a second solve on the same object returns a different answer")
+    if "fwd" in obs:
+        # backward pass: the forward result is judged too (value on direct paths)
+        fr = reference(spec, cell["fwd_rhs"], None)
+        if obs["fwd"].shape != fr.shape:
+            return ("shape", "forward result %s expected %s" % (list(obs["fwd"].shape), list(fr.shape)))
+        if not any(e[0] == "cg" for e in obs["events"]):
+            err = (obs["fwd"].to(F64) - fr).abs().max().item() / max(1.0, fr.abs().max().item())
+            if err > value_tol(cell["kappa"]):
+                return ("value", "forward solve before the backward pass: max rel err %.3e" % err)
+    if cell.get("profile"):
+        # members of different conditioning: every PD member is judged on its own against a dense solve of that member
+        # alone, with the tolerance of ITS condition number
+        A = ops.dense(spec)
+        for i, kp in enumerate(member_kappas(cell)):
+            if kp is None:
+                continue
+            r_i = rhs if rhs.dim() <= 2 else rhs[i]
+            l_i = None if left is None else (left if left.dim() <= 2 else left[i])
+            x = torch.linalg.solve(A[i], r_i.unsqueeze(-1) if r_i.dim() == 1 else r_i)
+            if l_i is not None:
+                x = l_i @ x
+            if r_i.dim() == 1:
+                x = x.squeeze(-1)
+            err = (out[i] - x).abs().max().item() / max(1.0, x.abs().max().item())
+            if err > value_tol(kp):
+                return ("value", "batch member %d (cond %.0e, PD) solved next to a numerically singular member: max rel err %.3e > %.1e"
+                        % (i, kp, err, value_tol(kp)))
+        return None
     ref = reference(spec, rhs, left)
     cgs = [e for e in obs["events"] if e[0] == "cg"]
     if not cgs:
@@ -465,8 +710,10 @@ def event_lit(e):
 
 
 def settings_lit(st):
-    return "(MkSettings %d%%N %s %d%%N %d%%N %d%%N %s false)" % (
-        st["mcs"], common.coq_bool(st["fast"]), st["maxit"], st["mps"], st["minps"], common.coq_bool(st["memeff"]))
+    d = defaults()
+    return "(MkSettings %d%%N %s %d%%N %d%%N %d%%N %s false %d%%N %d%%N)" % (
+        st["mcs"], common.coq_bool(st["fast"]), st["maxit"], st["mps"], st["minps"], common.coq_bool(st["memeff"]),
+        st.get("jit_exp", d["jit_exp"]), st.get("tries", d["tries"]))
 
 
 def case_lit(cell, spec, rhs, left, obs):
@@ -481,11 +728,16 @@ def case_lit(cell, spec, rhs, left, obs):
     oo = o.expand(*bb, *o.shape[-2:])
     ll = left.expand(*bb, *left.shape[-2:]) if left is not None else None
     mems = []
+    mk = member_kappas(cell) if cell.get("profile") else None
     for idx in itertools.product(*[range(s) for s in bb]):
-        lit = "(MkMem %s %s %s %s %s)" % (
+        mtol = "None"
+        if mk is not None:      # per-member tolerance: the member's own condition number
+            kp = mk[idx[0]]
+            mtol = "(Some %s)" % common.flit(SING_TOL if kp is None else value_tol(kp))
+        lit = "(MkMem %s %s %s %s %s %s)" % (
             ops.opd_lit(spec, bb, idx), ops.cols_lit(rr[idx] if bb else rr),
             "None" if ll is None else "(Some (%d%%N, %s))" % (ll.shape[-2], ops.mat_lit(ll[idx] if bb else ll)),
-            ops.cols_lit(oo[idx] if bb else oo), ops.spec_lit(spec, bb, idx))
+            ops.cols_lit(oo[idx] if bb else oo), ops.spec_lit(spec, bb, idx), mtol)
         mems.append(lit)
     fold = 0
     if spec["cls"] == "BatchRepeat" and left is None and not ops.batch(spec["base"]) and len(spec["rep"]) == 1 \
@@ -559,13 +811,18 @@ def fix_spec(e):
 # ----------------------------------------------------------------------------------------- run
 
 def key_of(cell, spec, obs, fail):
-    return {"cls": cell["cls"], "tree": ops.label(spec), "kind": cell["kind"], "method": coarse_method(obs["events"]),
-            "batched": bool(cell["ob"]), "own_solve": cell["cls"] in OWN_SOLVE, "dtype": cell.get("dtype", "f64"),
-            "left": cell["kind"].startswith("left"), "fail": fail}
+    k = {"cls": cell["cls"], "tree": ops.label(spec), "kind": cell["kind"], "method": coarse_method(obs["events"]),
+         "batched": bool(cell["ob"]) or bool(ops.batch(spec)), "own_solve": cell["cls"] in OWN_SOLVE, "dtype": cell.get("dtype", "f64"),
+         "left": cell["kind"].startswith("left"), "fail": fail, "via": cell.get("via", "solve"),
+         "family": cell.get("fam", "grid"), "rhsmod": cell.get("rhsmod")}
+    if isinstance(spec.get("base"), dict):
+        k["base"] = spec["base"]["cls"]
+    return k
 
 
 def replay_of(cell, spec, rhs, left, obs, what):
-    return {"kind": what, "cell": {k: (list(v) if isinstance(v, tuple) else v) for k, v in cell.items() if k != "kw"},
+    return {"kind": what, "cell": {k: (list(v) if isinstance(v, tuple) else v) for k, v in cell.items() if k not in ("kw", "fwd_rhs")},
+            "fwd_rhs": ser(cell.get("fwd_rhs")),
             "kw": ser(cell["kw"]), "spec": ser(spec), "rhs": ser(rhs), "left": ser(left),
             "observed": {"events": obs["events"], "warn": obs.get("warn"), "exc": obs.get("exc"),
                          "out": ser(obs["out"]) if torch.is_tensor(obs.get("out")) else None},
@@ -576,7 +833,7 @@ def observe_cell(cell, spec, rhs, left):
     """run the implementation on one cell; float32 cells: the operator is built from binary32 tensors, oracle and
     model see the same values in binary64.  returns (spec64, rhs64, left64, obs)"""
     if cell.get("dtype") != "f32":
-        return spec, rhs, left, observe(spec, rhs, left, cell["st"])
+        return spec, rhs, left, observe(spec, rhs, left, cell["st"], cell.get("via", "solve"), cell.get("fwd_rhs"))
 
     def mark(e, dt):
         if isinstance(e, dict):
@@ -612,7 +869,10 @@ def generate(ctx, budget_s=None):
     t0 = time.time()
     for cell in cells(ctx):
         spec = ops.gen(rng, cell["cls"], cell["n"], cell["kappa"], cell["ob"], **cell["kw"])
-        rhs, left = make_rhs(rng, cell["kind"], cell["N"], ops.batch(spec))
+        rhs, left = make_rhs(rng, cell["kind"], cell["N"], ops.batch(spec), cell.get("rhsmod"))
+        if cell.get("via") == "backward":
+            # `rhs` plays the upstream gradient; the forward right-hand side is an ordinary one of the same shape
+            cell = dict(cell, fwd_rhs=ops._randn(rng, *rhs.shape))
         spec, rhs, left, obs = observe_cell(cell, spec, rhs, left)
         yield cell, spec, rhs, left, obs
         if budget_s and time.time() - t0 > budget_s:
@@ -728,7 +988,9 @@ def run(ctx):
             # the pid keeps concurrent runs of this check (coordinator + builder) from sharing shard files
             shards.append(("c04_%d_%d" % (os.getpid(), s // SH), shard_src([cases[i][5] for i in idx[s:s + SH]])))
         n_shards = len(shards)
-        res = common.run_shards(ctx, shards)
+        res = {}
+        for g in range(0, len(shards), 3):        # at most 3 shard compilers at a time
+            res.update(common.run_shards(ctx, shards[g:g + 3]))
         for si, (name, _) in enumerate(shards):
             rc, out = res[name]
             bad = parse_seq_nat(out) if rc == 0 else None
@@ -791,6 +1053,9 @@ def replay(rp):
     left = deser(rp["left"]) if rp.get("left") is not None else None
     cell = dict(rp["cell"])
     cell["ob"] = tuple(cell.get("ob", ()))
+    cell["kw"] = deser(rp.get("kw") or {})
+    if rp.get("fwd_rhs") is not None:
+        cell["fwd_rhs"] = deser(rp["fwd_rhs"])
     spec, rhs, left, obs = observe_cell(cell, spec, rhs, left)
     f = predicate(cell, spec, rhs, left, obs)
     print("operator:", ops.label(spec), "settings:", cell["st"], "rhs kind:", cell["kind"])
